@@ -119,8 +119,11 @@ async fn register(
         .await
         .map_err(|e| {
             let mut state = plugin.state().lock().unwrap();
-            if e.is_connection() && state.towers.contains_key(&tower_id) {
-                state.set_tower_status(tower_id, TowerStatus::TemporaryUnreachable);
+            // A tower that has been flagged as misbehaving must remain so, no matter whether it can be reached or not.
+            if let Some(status) = state.get_tower_status(&tower_id) {
+                if e.is_connection() && !status.is_misbehaving() {
+                    state.set_tower_status(tower_id, TowerStatus::TemporaryUnreachable);
+                }
             }
             to_cln_error(e)
         })?;
